@@ -31,48 +31,60 @@ def le24 (rb : Bytes) (i : Nat) : Nat := rbAt rb i + rbAt rb (i + 1) * 256 + rbA
 
 /-! ### util-gensalt-sha.c -/
 
-/-- the `for (ceiling = 10; ceiling < count; ceiling *= 10)` loop: number of iterations -/
+/-- the `for (ceiling = 10; ceiling <= count; ceiling *= 10)` loop: number of iterations -/
 def ceilingSteps (count : Nat) : Nat :=
   let rec go : Nat → Nat → Nat → Nat
     | 0, _, acc => acc
-    | fuel + 1, ceiling, acc => if ceiling < count then go fuel (ceiling * 10) (acc + 1) else acc
+    | fuel + 1, ceiling, acc => if ceiling ≤ count then go fuel (ceiling * 10) (acc + 1) else acc
   go 20 10 0
 
 def shaSaltLoop (maxsalt n osize : Nat) (rb : Bytes) : Nat → Nat → Nat → Bytes
   | 0, _, _ => []
   | fuel + 1, written, used =>
-    if written + 5 < osize ∧ used + 3 < n ∧ used * 4 / 3 < maxsalt then
+    if written + 4 < osize ∧ used + 3 < n ∧ used * 4 / 3 < maxsalt then
       enc24 (le24 rb used) ++ shaSaltLoop maxsalt n osize rb fuel (written + 4) (used + 3)
     else []
 
-def gensaltSha (tag : UInt8) (maxsalt defcount mincount maxcount count : Nat)
-    (rb : Bytes) (n osize : Nat) : WOut :=
-  if n < 3 then .err .EINVAL else
+/-- `count` after the three clamping statements -/
+def shaClamp (defcount mincount maxcount count : Nat) : Nat :=
   let count := if count = 0 then defcount else count
   let count := if count < mincount then mincount else count
-  let count := if count > maxcount then maxcount else count
+  if count > maxcount then maxcount else count
+
+/-- the part of `gensalt_sha_rn` after the count has been clamped to `count` -/
+def gensaltShaCore (tag : UInt8) (maxsalt defcount count : Nat) (rb : Bytes) (n osize : Nat) : WOut :=
   let outputLen := if count ≠ defcount then 8 + 9 + ceilingSteps count else 8
   if osize < outputLen then .err .ERANGE else
   let head : Bytes :=
     if count = defcount then [36, tag, 36]
-    else [36, tag, 36] ++ str "rounds=" ++ toDec count ++ [36]
+    else [36, tag, 36] ++ /- "rounds=" -/ [114, 111, 117, 110, 100, 115, 61] ++ toDec count ++ [36]
   let written := head.length
-  -- assert (written + 5 < output_size)
-  if ¬ (written + 5 < osize) then .abort else
+  -- assert (written + 4 < output_size)
+  if ¬ (written + 4 < osize) then .abort else
   let salt := shaSaltLoop maxsalt n osize rb (maxsalt + 1) written 0
   .ok (head ++ salt) (written + salt.length + 1)
 
+def gensaltSha (tag : UInt8) (maxsalt defcount mincount maxcount count : Nat)
+    (rb : Bytes) (n osize : Nat) : WOut :=
+  if n < 4 then .err .EINVAL else
+  gensaltShaCore tag maxsalt defcount (shaClamp defcount mincount maxcount count) rb n osize
+
 /-! ### crypt-sunmd5.c -/
 
-def gensaltSunmd5 (count : Nat) (rb : Bytes) (n osize : Nat) : WOut :=
-  if osize < Gen.SUNMD5_MAX_SETTING_LEN + 1 then .err .ERANGE else
-  if n < 6 + 2 then .err .EINVAL else
+/-- the round count `gensalt_sunmd5_rn` prints -/
+def sunmd5Count (count : Nat) (rb : Bytes) : Nat :=
   let count := if count < 32768 then 32768
                else if count > Gen.SUNMD5_MAX_ROUNDS - 65536 then Gen.SUNMD5_MAX_ROUNDS - 65536 else count
   let count := count + rbAt rb 0 * 256
   let count := count + rbAt rb 1
+  if count > Gen.SUNMD5_MAX_ROUNDS - 4096 then Gen.SUNMD5_MAX_ROUNDS - 4096 else count
+
+def gensaltSunmd5 (count : Nat) (rb : Bytes) (n osize : Nat) : WOut :=
+  if osize < Gen.SUNMD5_MAX_SETTING_LEN + 1 then .err .ERANGE else
+  if n < 6 + 2 then .err .EINVAL else
+  let count := sunmd5Count count rb
   if count = 0 then .abort else
-  let head := Gen.SUNMD5_PREFIX ++ str ",rounds=" ++ toDec count ++ [36]
+  let head := Gen.SUNMD5_PREFIX ++ /- ",rounds=" -/ [44, 114, 111, 117, 110, 100, 115, 61] ++ toDec count ++ [36]
   let s := head ++ enc24 (rbAt rb 2 + rbAt rb 3 * 256 + rbAt rb 4 * 65536)
                 ++ enc24 (rbAt rb 5 + rbAt rb 6 * 256 + rbAt rb 7 * 65536) ++ [36]
   .ok s (head.length + 10)
@@ -87,21 +99,27 @@ def sha1SaltLoop (rb : Bytes) (rlim olim : Nat) : Nat → Nat → Nat → Bytes
         ++ sha1SaltLoop rb rlim olim fuel (r + 3) (o + 4)
     else []
 
-def gensaltSha1 (count : Nat) (rb : Bytes) (n osize : Nat) : WOut :=
-  if n < 12 + 4 then .err .EINVAL else
-  if osize < (n - 4) * 4 / 3 + 9 + 10 then .err .ERANGE else
+/-- the iteration count `gensalt_sha1crypt_rn` prints (`uint32_t rounds`) -/
+def sha1Rounds (count : Nat) (rb : Bytes) : Nat :=
   let random := rbAt rb 0 + rbAt rb 1 * 256 + rbAt rb 2 * 65536 + rbAt rb 3 * 16777216
   let count := if count = 0 then Gen.CRYPT_SHA1_ITERATIONS else count
   let count := if count < 4 then 4 else count
   let count := if count > UINT_MAX then UINT_MAX else count
-  let rounds := (count - random % (count / 4)) % 2 ^ 32
-  let head := str "$sha1$" ++ toDec rounds ++ [36]
+  (count - random % (count / 4)) % 2 ^ 32
+
+def gensaltSha1 (count : Nat) (rb : Bytes) (n osize : Nat) : WOut :=
+  if n < 12 + 4 then .err .EINVAL else
+  if osize < (n - 4) * 4 / 3 + 9 + 10 then .err .ERANGE else
+  let head := /- "$sha1$" -/ [36, 115, 104, 97, 49, 36] ++ toDec (sha1Rounds count rb) ++ [36]
   let n0 := head.length
   if ¬ (n0 ≥ 1 ∧ n0 + 2 < osize) then .abort else
   let olim := n0 + Gen.CRYPT_SHA1_SALT_LENGTH
   let olim := if olim + 2 > osize then osize - 2 else olim
   let salt := sha1SaltLoop rb n olim (Gen.CRYPT_SHA1_SALT_LENGTH + 1) 4 n0
   .ok (head ++ salt ++ [36]) (n0 + salt.length + 2)
+
+/-- `if (!count) count = d;` -/
+def dfl (count d : Nat) : Nat := if count = 0 then d else count
 
 /-! ### crypt-bcrypt.c -/
 
@@ -120,7 +138,7 @@ def bfEncode : Bytes → Bytes
 def padTo (rb : Bytes) (k : Nat) : Bytes := (List.range k).map (fun i => rb.getD i 0)
 
 def gensaltBf (subtype : UInt8) (count : Nat) (rb : Bytes) (n osize : Nat) : WOut :=
-  let count := if count = 0 then 5 else count
+  let count := dfl count 5
   if n < 16 ∨ count < 4 ∨ count > 31 ∨ (subtype ≠ 97 ∧ subtype ≠ 98 ∧ subtype ≠ 121) then .err .EINVAL else
   if osize < 7 + 22 + 1 then .err .ERANGE else
   let s := [36, 50, subtype, 36, (48 + count / 10).toUInt8, (48 + count % 10).toUInt8, 36]
@@ -140,7 +158,7 @@ def gensaltBig (descryptOn : Bool) (count : Nat) (rb : Bytes) (n osize : Nat) : 
   else
     if osize < 3 + 12 then .err .ERANGE else
     match gensaltDes count rb n osize with
-    | .ok s _ => .ok (s ++ str "............") osize   -- strcpy_or_abort zero-fills to output_size
+    | .ok s _ => .ok (s ++ /- "............" -/ [46, 46, 46, 46, 46, 46, 46, 46, 46, 46, 46, 46]) osize   -- strcpy_or_abort zero-fills to output_size
     | o => o
 
 def gensaltBsdi (count : Nat) (rb : Bytes) (n osize : Nat) : WOut :=
@@ -156,7 +174,7 @@ def gensaltBsdi (count : Nat) (rb : Bytes) (n osize : Nat) : WOut :=
 def gensaltNt (count : Nat) (osize : Nat) : WOut :=
   if osize < 3 + 1 then .err .ERANGE else
   if count ≠ 0 then .err .EINVAL else
-  .ok (str "$3$") osize      -- strcpy_or_abort zero-fills to o_size
+  .ok (/- "$3$" -/ [36, 51, 36]) osize      -- strcpy_or_abort zero-fills to o_size
 
 def gensaltMd5 (count : Nat) (rb : Bytes) (n osize : Nat) : WOut :=
   if count ≠ 0 then .err .EINVAL else
@@ -197,29 +215,34 @@ def encode64 : Bytes → Bytes
   | [a, b] => enc64Group [a, b]
   | a :: b :: c :: rest => enc64Group [a, b, c] ++ encode64 rest
 
+/-- the assembly of `outbuf` in `gensalt_scrypt_rn`, with the C bookkeeping of `out_s`
+    and its three `out_s > BASE64_LEN (..)` guards (`n` already capped at 64) -/
+def scryptOutbuf (count : Nat) (rb : Bytes) (n : Nat) : Except Errno Bytes :=
+  let N := 2 ^ (count + 7)
+  let outS0 : Int := Gen.CRYPT_GENSALT_OUTPUT_SIZE - 4
+  if ¬ (outS0 > base64Len 30) then .error .EINVAL /- unreachable: would silently keep the token -/ else
+  match scryptEnc32 outS0 32 30 with
+  | none => .error .ERANGE
+  | some e1 =>
+    let outS1 := outS0 - (4 + e1.length)
+    if ¬ (outS1 > base64Len 30) then .error .EINVAL else
+    match scryptEnc32 outS1 1 30 with
+    | none => .error .ERANGE
+    | some e2 =>
+      let outS2 := outS1 - (4 + e1.length + e2.length)
+      if ¬ (outS2 > base64Len n) then .error .EINVAL else
+      .ok (/- "$7$" -/ [36, 55, 36] ++ [a64 (n2log2 N)] ++ e1 ++ e2 ++ encode64 (padTo rb n))
+
 def gensaltScrypt (count : Nat) (rb : Bytes) (n osize : Nat) : WOut :=
-  let n := if n > 64 then 64 else n
+  let n := min n 64
   let need := 3 + 1 + 5 * 2 + base64Len n + 1
   if osize < need ∨ Gen.CRYPT_GENSALT_OUTPUT_SIZE < need then .err .ERANGE else
   if (count > 0 ∧ count < 6) ∨ count > 11 ∨ n < 16 then .err .EINVAL else
-  let count := if count = 0 then 7 else count
-  let N := 2 ^ (count + 7)
-  -- the three `out_s > BASE64_LEN (..)` guards, with the C bookkeeping of out_s
-  let outS0 : Int := Gen.CRYPT_GENSALT_OUTPUT_SIZE - 4
-  if ¬ (outS0 > base64Len 30) then .err .EINVAL /- unreachable: silently keeps the token -/ else
-  match scryptEnc32 outS0 32 30 with
-  | none => .err .ERANGE
-  | some e1 =>
-    let outS1 := outS0 - (4 + e1.length)
-    if ¬ (outS1 > base64Len 30) then .err .EINVAL else
-    match scryptEnc32 outS1 1 30 with
-    | none => .err .ERANGE
-    | some e2 =>
-      let outS2 := outS1 - (4 + e1.length + e2.length)
-      if ¬ (outS2 > base64Len n) then .err .EINVAL else
-      let s := str "$7$" ++ [a64 (n2log2 N)] ++ e1 ++ e2 ++ encode64 (padTo rb n)
-      -- strcpy_or_abort (output, o_size, outbuf)
-      if osize < s.length + 1 then .abort else .ok s osize
+  match scryptOutbuf (dfl count 7) rb n with
+  | .error e => .err e
+  | .ok s =>
+    -- strcpy_or_abort (output, o_size, outbuf)
+    if osize < s.length + 1 then .abort else .ok s osize
 
 /-- alg-yescrypt-common.c `encode64_uint32 (dst, dstlen, src, min)`: variable-length
     encoding; `none` on `src < min`, value too large, or `dstlen <= chars` -/
@@ -260,8 +283,8 @@ def yesEncodeParams (N r : Nat) (src : Bytes) (buflen : Nat) : Option Bytes :=
     let nlog := n2log2 N
     if nlog = 0 then none else
     if r * 1 ≥ 2 ^ 30 then none else
-    do
-      let p0 : Bytes := str "$y$"
+    match (do
+      let p0 : Bytes := /- "$y$" -/ [36, 121, 36]
       let e1 ← yesEnc32 (buflen - p0.length) flavor 0
       let p1 := p0 ++ e1
       let e2 ← yesEnc32 (buflen - p1.length) nlog 1
@@ -271,22 +294,26 @@ def yesEncodeParams (N r : Nat) (src : Bytes) (buflen : Nat) : Option Bytes :=
       if p3.length ≥ buflen then none else
       let p4 := p3 ++ [36]
       let e4 ← yesEncode64 (buflen - p4.length) src
-      let p5 := p4 ++ e4
-      if p5.length ≥ buflen then none else pure p5
+      pure (p4 ++ e4) : Option Bytes) with
+    | none => none
+    | some p5 => if p5.length ≥ buflen then none else some p5   -- `dst >= buf + buflen`
+
+/-- `(r, N)` chosen by `gensalt_yescrypt_rn` for a (non-zero) cost `count` -/
+def yesRN (count : Nat) : Nat × Nat :=
+  if count < 3 then (8, 2 ^ (count + 9)) else (32, 2 ^ (count + 7))
 
 def gensaltYescrypt (count : Nat) (rb : Bytes) (n osize : Nat) : WOut :=
-  let n := if n > 64 then 64 else n
+  let n := min n 64
   let need := 3 + 8 * 6 + 1 + base64Len n + 1
   if osize < need ∨ Gen.CRYPT_GENSALT_OUTPUT_SIZE < need then .err .ERANGE else
   if count > 11 ∨ n < 16 then .err .EINVAL else
-  let count := if count = 0 then 5 else count
-  let (r, N) := if count < 3 then (8, 2 ^ (count + 9)) else (32, 2 ^ (count + 7))
-  match yesEncodeParams N r (padTo rb n) osize with
+  let count := dfl count 5
+  match yesEncodeParams (yesRN count).2 (yesRN count).1 (padTo rb n) osize with
   | none => .err .ERANGE
   | some s => if osize < s.length + 1 then .abort else .ok s osize
 
 def gensaltGost (count : Nat) (rb : Bytes) (n osize : Nat) : WOut :=
-  let n := if n > 64 then 64 else n
+  let n := min n 64
   let need := 4 + 8 * 6 + base64Len n + 1
   if osize < need ∨ Gen.CRYPT_GENSALT_OUTPUT_SIZE < need then .err .ERANGE else
   match gensaltYescrypt count rb n (osize - 1) with
@@ -332,6 +359,19 @@ structure Config where
 def Config.tree : Config :=
   { table := Gen.table, dflt := Gen.defaultPrefix, descryptOn := Gen.enabled.contains .descrypt }
 
+/-- `if (!prefix) prefix = HASH_ALGORITHM_DEFAULT` (or EINVAL when there is none) -/
+def resolvePrefix (cfg : Config) (pfx : Option Bytes) : Option Bytes :=
+  match pfx with | some p => some p | none => cfg.dflt
+
+/-- the `(rbytes, (size_t) nrbytes)` pair handed to the writer -/
+def rbArgs (h : HashEntry) (rbytes : Option Bytes) (nrbytes : Int) (os : Nat → Bytes) : Bytes × Nat :=
+  match rbytes with
+  | some rb => (rb, if nrbytes < 0 then (2 ^ 64 - nrbytes.natAbs) else nrbytes.toNat)
+  | none => (os h.nrbytes, h.nrbytes)
+
+def GRes.fail (osize : Int) (e : Errno) : GRes :=
+  { ret := none, errno := some e, buf := failureToken (some []) osize, ext := failureTokenExtent osize }
+
 /-- `crypt_gensalt_rn (prefix, count, rbytes, nrbytes, output, output_size)`.
     `rbytes = none` is the NULL pointer; then `os` supplies the bytes that
     `get_random_bytes` returns (the OS CSPRNG is a parameter of the model).
@@ -339,24 +379,18 @@ def Config.tree : Config :=
     that many bytes; a negative count is converted like the C cast). -/
 def gensaltRn (cfg : Config) (pfx : Option Bytes) (count : Nat) (rbytes : Option Bytes)
     (nrbytes : Int) (osize : Int) (os : Nat → Bytes := fun k => List.replicate k 0) : GRes :=
-  let tok := failureToken (some []) osize
-  let tokExt := failureTokenExtent osize
-  let fail (e : Errno) : GRes := { ret := none, errno := some e, buf := tok, ext := tokExt }
-  if osize < 3 then fail .ERANGE else
-  match (match pfx with | some p => some p | none => cfg.dflt) with
-  | none => fail .EINVAL
+  if osize < 3 then GRes.fail osize .ERANGE else
+  match resolvePrefix cfg pfx with
+  | none => GRes.fail osize .EINVAL
   | some p =>
     match getHashFn cfg.table p with
-    | none => fail .EINVAL
+    | none => GRes.fail osize .EINVAL
     | some h =>
-      let (rb, n) : Bytes × Nat :=
-        match rbytes with
-        | some rb => (rb, if nrbytes < 0 then (2 ^ 64 - nrbytes.natAbs) else nrbytes.toNat)
-        | none => (os h.nrbytes, h.nrbytes)
-      match gensaltMethod cfg.descryptOn h.gensalt count rb n osize.toNat with
-      | .ok s ext => { ret := some s, errno := none, buf := some s, ext := max tokExt ext }
-      | .err e => fail e
-      | .abort => { ret := none, errno := none, buf := tok, ext := tokExt, aborted := true }
+      match gensaltMethod cfg.descryptOn h.gensalt count (rbArgs h rbytes nrbytes os).1
+              (rbArgs h rbytes nrbytes os).2 osize.toNat with
+      | .ok s ext => { ret := some s, errno := none, buf := some s, ext := max (failureTokenExtent osize) ext }
+      | .err e => GRes.fail osize e
+      | .abort => { GRes.fail osize .EINVAL with errno := none, aborted := true }
 
 /-- `crypt_gensalt_ra`: malloc (CRYPT_GENSALT_OUTPUT_SIZE) then `_rn`; the block is
     freed when the result is NULL. `mallocOk = false` models allocation failure. -/
